@@ -225,3 +225,14 @@ func TestShortRepeatLongGroupInterval(t *testing.T) {
 	sub := vf.Cur().Sub("short-repeat-long-group-interval", fmt.Sprintf(rule, "targeted: repeat_interval 30 s - 2 min with group_interval 5-10 min and notification-log GC every minute; an alert notified as firing resolves inside a group interval and must be reported resolved by the next flush"), 10)
 	sysrun.Run(t, "C05", sub, sysrun.Family{Name: "srlg", Quick: 40, Thorough: 2000, Gen: shortRepeatLongGroupInterval, NonTrivial: nt}, checkers)
 }
+
+func TestShrinkingExplicitEnd(t *testing.T) {
+	sub := vf.Cur().Sub("shrinking-explicit-end", fmt.Sprintf(rule, "targeted: an alert with an explicit end 25-35 min ahead is re-submitted with an earlier explicit end (1.5-4 min ahead) that overlaps, so the merged alert keeps the later end; notifications must keep listing it as firing and never as resolved until the later end has passed, and the API must agree"), 10)
+	ck := map[string]sysrun.Checker{}
+	for k, v := range checkers {
+		ck[k] = v
+	}
+	ck["api-partition"] = oracle.APIPartition
+	sysrun.Run(t, "C05", sub, sysrun.Family{Name: "shrink", Quick: 40, Thorough: 2000, Gen: scen.ShrinkingExplicitEnd,
+		NonTrivial: func(c map[string]int64) bool { return c["firing_listed"] > 0 }}, ck)
+}
